@@ -550,7 +550,7 @@ func superviseWorker(p *props.Prop, tier string, seed uint64, k, w int, b props.
 		out2 := filepath.Join(tmp, fmt.Sprintf("w%d-confirm.json", k))
 		c2 := exec.Command(selfExe(), "worker", "-prop", p.ID, "-tier", tier, "-seed", strconv.FormatUint(seed, 10),
 			"-from", strconv.Itoa(idx), "-to", strconv.Itoa(idx+1), "-out", out2, "-wall", "5m")
-		c2.Env = append(os.Environ(), "GOMAXPROCS="+workerProcs())
+		c2.Env = append(os.Environ(), "GOMAXPROCS="+workerProcs(), "VERIF_CASE_TRACE=1")
 		var se2 bytes.Buffer
 		c2.Stderr = &se2
 		c2.Stdout = &se2
@@ -766,7 +766,7 @@ func cmdReplay(args []string) {
 			return
 		}
 		cmd := exec.Command(selfExe(), "replay", args[0])
-		cmd.Env = append(os.Environ(), "VERIF_REPLAY_CHILD=1")
+		cmd.Env = append(os.Environ(), "VERIF_REPLAY_CHILD=1", "VERIF_CASE_TRACE=1")
 		var se bytes.Buffer
 		cmd.Stderr = &se
 		cmd.Stdout = &se
